@@ -1,6 +1,7 @@
 mod c11;
 mod c12;
 mod c16;
+mod c17;
 mod extract;
 mod model;
 mod report;
@@ -20,6 +21,7 @@ fn main() {
         "C11" => c11::main(&args[1..]),
         "C12" => c12::main(&args[1..]),
         "C16" => c16::main(&args[1..]),
+        "C17" => c17::main(&args[1..]),
         o => {
             eprintln!("unknown subcommand {o}");
             std::process::exit(2);
